@@ -320,6 +320,13 @@ func (g *gcIPAM) ReleaseIPs(ctx context.Context, in ...ipam.ReleaseOptions) ([]c
 	return ips, rel, err
 }
 
+func nodeBorn(n *nodeT) time.Duration {
+	if n == nil {
+		return 0
+	}
+	return n.bornAt
+}
+
 func affinityHost(aff string) string { return strings.TrimPrefix(aff, "host:") }
 
 func (o *oracle) affineBlocks(host string) []string {
@@ -378,8 +385,18 @@ func (g *gcIPAM) ReleaseHostAffinities(ctx context.Context, cfg ipam.AffinityCon
 		if len(blocks) == 0 {
 			r.Probe("gc_host_release_is_noop")
 		}
-		r.Check("never_last_block_of_live_node", len(blocks) == 0 || n == nil || !n.alive,
-			"the collector issued ReleaseHostAffinities for node %s, which still exists and holds blocks %v", cfg.Host, blocks)
+		// The controller decides "the node is gone" early in a sync pass and acts on it later in the same pass, with
+		// datastore round trips in between.  A node re-created inside that window is indistinguishable, for any
+		// controller, from one re-created just after the call; the clause is therefore judged over the pass: the
+		// node must have been absent at some instant since the controller was last seen idle.
+		gone := n == nil || !n.alive
+		if !gone && n.bornAt >= w.gcIdleSeenAt && len(blocks) > 0 {
+			gone = true
+			r.Probe("node_recreated_during_sync_pass")
+		}
+		r.Check("never_last_block_of_live_node", len(blocks) == 0 || gone,
+			"the collector issued ReleaseHostAffinities for node %s, which exists (since %s; the collector was last idle at %s) and holds blocks %v",
+			cfg.Host, secs(nodeBorn(n)), secs(w.gcIdleSeenAt), blocks)
 	}
 	err := g.Interface.ReleaseHostAffinities(ctx, cfg, mustBeEmpty)
 	r.Logf("  gc: ReleaseHostAffinities(%s) -> %s", cfg.Host, errShort(err))
